@@ -10,6 +10,7 @@ pub mod rng;
 pub mod run;
 pub mod sc;
 pub mod spy;
+pub mod statfit;
 pub mod t_table;
 pub mod tdist;
 pub mod twin;
@@ -18,12 +19,17 @@ pub mod props {
     pub mod c01;
     pub mod c02;
     pub mod c03;
+    pub mod c04;
+    pub mod c05;
     pub mod c06;
     pub mod c07;
     pub mod c08;
     pub mod c09;
     pub mod c10;
+    pub mod c11;
     pub mod c12;
+    pub mod c13;
+    pub mod c14;
 }
 
 pub fn selftest() -> Result<(), String> {
@@ -37,6 +43,7 @@ pub fn selftest() -> Result<(), String> {
 pub fn sanitizer_workload(prop: &str, seed: u64, cases: u64, nmax: usize, len: usize) -> (u64, u64) {
     match prop {
         "C10" => props::c10::sanitizer_workload(seed, cases, nmax, len),
+        "C11" => props::c11::sanitizer_workload(seed, cases, nmax, len),
         _ => panic!("no sanitizer workload for {prop}"),
     }
 }
